@@ -2,14 +2,222 @@
 
 package main
 
+// C11, thorough tier: the production channels end to end.
+//   kind H = s.Services.Webhooks (production WebhooksService over the SQL webhook repository and the production
+//            HTTP client) with one webhook registered through CreateWebhook, pointing at an httptest server
+//            that records the POSTed bodies (ok -> 200, err -> 500, slow -> holds the request on the gate);
+//   kind C = production wsChan publishing into the real centrifuge node of transports/websocket (NewServer,
+//            SetupEntrypoint, Start) with a real centrifuge-go JSON client subscribed to "headers"; what the
+//            CLIENT receives is recorded (ok, or slow = the publish call is held on the gate).
+
 import (
 	"fmt"
+	"io"
+	"net/http"
+	"net/http/httptest"
+	"strings"
+	"sync"
+	"time"
 
 	"github.com/bitcoin-sv/block-headers-service/notification"
+	"github.com/bitcoin-sv/block-headers-service/transports/websocket"
+	"github.com/centrifugal/centrifuge"
+	cgo "github.com/centrifugal/centrifuge-go"
+	"github.com/gin-gonic/gin"
 )
 
-func c11AddRealChannel(e *c11Env, nt *notification.Notifier, r *c11Rec) error {
-	return fmt.Errorf("channel kind %s not available", r.spec.Kind)
+type c11Real struct {
+	mu      sync.Mutex
+	hookSrv *httptest.Server
+	hooks   map[string]*c11Rec // request path -> recorder
+	seq     int
+
+	ws     websocket.Server
+	wsSrv  *httptest.Server
+	client *cgo.Client
+	curC   *c11Rec
 }
 
-func c11Thorough(e *c11Env, do func(*c11Case, string) error) error { return nil }
+var c11real = &c11Real{hooks: map[string]*c11Rec{}}
+
+func (x *c11Real) recOf(path string) *c11Rec {
+	x.mu.Lock()
+	defer x.mu.Unlock()
+	return x.hooks[path]
+}
+
+func (x *c11Real) ensureHooks() {
+	if x.hookSrv != nil {
+		return
+	}
+	x.hookSrv = httptest.NewServer(http.HandlerFunc(func(w http.ResponseWriter, req *http.Request) {
+		body, _ := io.ReadAll(req.Body)
+		r := x.recOf(req.URL.Path)
+		if r == nil {
+			w.WriteHeader(http.StatusNotFound)
+			return
+		}
+		r.hold()
+		s := c11CanonJSON(r.mat, body)
+		if req.Method != http.MethodPost {
+			s = "WRONG-METHOD-" + req.Method + "-" + s
+		}
+		if !strings.HasPrefix(req.Header.Get("Content-Type"), "application/json") {
+			s = "WRONG-CONTENT-TYPE-" + s
+		}
+		if req.Header.Get("Authorization") != "Bearer c11token" {
+			s = "WRONG-AUTH-" + s
+		}
+		r.record(s)
+		if r.spec.Beh == "err" {
+			w.WriteHeader(http.StatusInternalServerError)
+			return
+		}
+		w.WriteHeader(http.StatusOK)
+	}))
+}
+
+func (x *c11Real) ensureWS(e *c11Env) error {
+	if x.ws != nil {
+		return nil
+	}
+	ws, err := websocket.NewServer(e.s.Log, e.s.Services, false)
+	if err != nil {
+		return err
+	}
+	eng := gin.New()
+	ws.SetupEntrypoint(eng)
+	if err := ws.Start(); err != nil {
+		return err
+	}
+	x.ws = ws
+	x.wsSrv = httptest.NewServer(eng)
+	url := "ws" + strings.TrimPrefix(x.wsSrv.URL, "http") + "/connection/websocket"
+	cl := cgo.NewJsonClient(url, cgo.Config{})
+	if err := cl.Connect(); err != nil {
+		return err
+	}
+	sub, err := cl.NewSubscription("headers", cgo.SubscriptionConfig{})
+	if err != nil {
+		return err
+	}
+	subscribed := make(chan struct{})
+	var once sync.Once
+	sub.OnSubscribed(func(cgo.SubscribedEvent) { once.Do(func() { close(subscribed) }) })
+	sub.OnPublication(func(ev cgo.PublicationEvent) {
+		x.mu.Lock()
+		r := x.curC
+		x.mu.Unlock()
+		if r != nil {
+			r.record(c11CanonJSON(r.mat, ev.Data))
+		}
+	})
+	if err := sub.Subscribe(); err != nil {
+		return err
+	}
+	select {
+	case <-subscribed:
+	case <-time.After(5 * time.Second):
+		return fmt.Errorf("centrifuge client: subscription to 'headers' timed out")
+	}
+	x.client = cl
+	return nil
+}
+
+// publisher handed to the production wsChan: the real node, optionally held on the gate first
+type c11NodePub struct {
+	r    *c11Rec
+	node websocket.Publisher
+}
+
+func (p c11NodePub) Publish(channel string, data []byte, opts ...centrifuge.PublishOption) (centrifuge.PublishResult, error) {
+	p.r.hold()
+	return p.node.Publish(channel, data, opts...)
+}
+
+func c11AddRealChannel(e *c11Env, nt *notification.Notifier, r *c11Rec) error {
+	x := c11real
+	switch r.spec.Kind {
+	case "H":
+		x.ensureHooks()
+		x.mu.Lock()
+		x.seq++
+		path := fmt.Sprintf("/hook%d", x.seq)
+		x.hooks[path] = r
+		x.mu.Unlock()
+		url := x.hookSrv.URL + path
+		if _, err := e.s.Services.Webhooks.CreateWebhook("Bearer", "", "c11token", url); err != nil {
+			return fmt.Errorf("CreateWebhook: %w", err)
+		}
+		nt.AddChannel(e.s.Services.Webhooks)
+		r.closer = func() {
+			_ = e.s.Services.Webhooks.DeleteWebhook(url)
+			x.mu.Lock()
+			delete(x.hooks, path)
+			x.mu.Unlock()
+		}
+	case "C":
+		if err := x.ensureWS(e); err != nil {
+			return err
+		}
+		x.mu.Lock()
+		x.curC = r
+		x.mu.Unlock()
+		nt.AddChannel(notification.NewWebsocketChannel(e.s.Log, c11NodePub{r, x.ws.Publisher()}, e.s.Cfg.Websocket))
+		r.closer = func() {
+			x.mu.Lock()
+			x.curC = nil
+			x.mu.Unlock()
+		}
+	}
+	return nil
+}
+
+func c11Thorough(e *c11Env, do func(*c11Case, string) error) error {
+	c := e.c
+	n := 160
+	for i := 0; i < n; i++ {
+		o := GenOpts{N: 2 + c.Rng.Intn(14), PUnknown: 0.08, PLate: 0.1, PDup: 0.12, PForbidden: 0.2, Deep: i%2 == 0, Positive: true}
+		h := GenHistory(c.Rng, o)
+		faults := map[int]c11Fault{}
+		if i%3 != 0 {
+			h, faults = c11AddFaults(c.Rng, h, 0.15)
+		}
+		// at most one H (it IS the webhooks service) and one C (there is one "headers" channel)
+		var chans []c11Spec
+		hb := []string{"ok", "ok", "err", "slow"}[c.Rng.Intn(4)]
+		cb := []string{"ok", "ok", "slow"}[c.Rng.Intn(3)]
+		switch i % 3 {
+		case 0:
+			chans = []c11Spec{{"H", hb}, {"C", cb}} // the production registration order of cmd/main.go
+		case 1:
+			chans = []c11Spec{{"H", hb}}
+		default:
+			chans = []c11Spec{{"C", cb}}
+		}
+		extra := c11GenChans(c.Rng, []string{"R", "W"})
+		if len(extra) > 2 {
+			extra = extra[:2]
+		}
+		if c.Rng.Intn(2) == 0 {
+			chans = append(chans, extra...)
+		} else {
+			chans = append(extra, chans...)
+		}
+		k := &c11Case{Chans: chans, N: c.Rng.Intn(1000000), H: h, Faults: faults}
+		if err := do(k, "thorough-real"); err != nil {
+			return err
+		}
+	}
+	x := c11real
+	if x.client != nil {
+		x.client.Close()
+	}
+	if x.wsSrv != nil {
+		x.wsSrv.Close()
+	}
+	if x.hookSrv != nil {
+		x.hookSrv.Close()
+	}
+	return nil
+}
